@@ -444,7 +444,7 @@ def gen_cases(rng, tier):
     pats = [['slice', 'iarr', 'slice', 'iarr'], ['none', 'iarr', 'slice', 'iarr'], ['slice', 'iarr', 'none', 'iarr'],
             ['slice', 'slice', 'iarr', 'slice', 'iarr'], ['slice', 'iarr', 'ell', 'iarr'], ['bool', 'barr1', 'slice', 'iarr'],
             ['slice', 'iarr', 'slice', 'int', 'iarr']]
-    for _ in range(3000 if thorough else 500):
+    for _ in range(4000 if thorough else 800):
         kinds = rng.choice(pats)
         rank = sum(G.CONS[k] for k in kinds) + (1 if 'ell' in kinds and rng.random() < 0.5 else 0)
         shape = [rng.choice([1, 2, 3]) for _ in range(rank)]
@@ -456,11 +456,22 @@ def gen_cases(rng, tier):
             out_shape, _ = R.ref_select(shape, ents)
         except R.RefError:
             continue
-        j = rng.randint(0, len(out_shape))
+        # derivative key sets: only in the target / only in the right-hand side / in both / none
+        dmode = rng.choice(['none', 'target', 'rhs', 'both', 'target', 'disjoint'])
+        tkeys = {'none': [], 'target': ['t'], 'rhs': [], 'both': ['t', 'a'], 'disjoint': ['t']}[dmode]
+        rkeys = {'none': [], 'target': [], 'rhs': ['a'], 'both': ['t'], 'disjoint': ['a']}[dmode]
+        base = {'t': 100000, 'a': 200000}
+        for key in tkeys:
+            t['derivs'][key] = {'base': base[key], 'mask': G.rand_mask_rep(rng, shape, views=False)}
+        j = 0 if rng.random() < 0.5 else rng.randint(0, len(out_shape))
         rs = list(out_shape[j:])
-        if rng.random() < 0.3:
+        if rng.random() < 0.25:
             rs = [1 if rng.random() < 0.4 else n for n in rs]
-        rhs = {'shape': rs, 'mask': G.rand_mask_rep(rng, rs), 'derivs': {}}
+        # right-hand-side masks: over-represent full arrays with mixed bits (they are moved with the array axes)
+        rmask = [rng.random() < 0.4 for _ in range(R.prod(rs))] if (rs and rng.random() < 0.6) else G.rand_mask_rep(rng, rs)
+        rhs = {'shape': rs, 'mask': rmask, 'derivs': {}}
+        for key in rkeys:
+            rhs['derivs'][key] = {'base': base[key], 'mask': G.rand_mask_rep(rng, rs)}
         cases.append(mk({'target': t, 'steps': [{'index': ents, 'bare': False, 'rhs': rhs}]}))
     if thorough:
         for _ in range(600):
